@@ -79,7 +79,12 @@ pub fn mask(msg: &str) -> String {
             }
         })
         .collect();
-    collapsed.join(" ")
+    let mut joined = collapsed.join(" ");
+    // lists of numbers ("[#, #, #, ...") collapse to one token whatever their length
+    while joined.contains("#, #") {
+        joined = joined.replace("#, #", "#");
+    }
+    joined
 }
 
 thread_local! {
